@@ -47,6 +47,7 @@ def setup(ctx):
     ctx.require("monitor", "faults_injected", 129)
     ctx.require("monitor", "faults_fired", 93)
     ctx.require("monitor", "protocol_uploads", 24)
+    ctx.require("monitor", "protocol_uploads_followed_by_a_stray_read", 10)
     ctx.require("monitor", "sequence_requests", 50)
     ctx.require("monitor", "requests_on_one_long_lived_handler", 400)
     ctx.require("monitor", "churn_requests", 14)
@@ -362,10 +363,30 @@ def run_protocol(ctx, rng):
             data = line + body
             h = FileUploadHandler(up, max_size=LIMIT, auth_tokens={"good"}, enable_delete=True)
             before = fstree.snapshot([base])
-            sim = ServerSim(lambda: GeminiServerProtocol(lambda r: None, None, h), loop=loop)
+            # how the bytes arrive: in pieces; or the upload in one go and stray bytes right behind it in a read of their
+            # own - back to back (before the loop has run anything) or while a slow middleware chain is still deciding
+            schedule = ("pieces", "pieces", "stray-read-back-to-back", "stray-read-while-chain-pending")[trial % 4]
+            chain = None
+            if schedule == "stray-read-while-chain-pending":
+                from vf.sim import SpyMiddleware
+
+                chain = SpyMiddleware({"outcome": "allow", "delay": 1.0}, [], loop)
+            sim = ServerSim(lambda: GeminiServerProtocol(lambda r: None, chain, h), loop=loop)
             sim.start()
-            for ch in bytesgen.split(data, bytesgen.random_cuts(rng, len(data), rng.choice([0, 1, 2, 5]))):
-                sim.feed(ch)
+            if schedule == "pieces":
+                for ch in bytesgen.split(data, bytesgen.random_cuts(rng, len(data), rng.choice([0, 1, 2, 5]))):
+                    sim.feed(ch)
+            else:
+                stray = bytes(rng.getrandbits(8) for _ in range(rng.choice([1, 9, 200]))) or b"x"
+                ctx.count("monitor", "protocol_uploads_followed_by_a_stray_read")
+                if schedule == "stray-read-back-to-back":
+                    loop.do(lambda: (sim.transport.feed(line + body[:size]), sim.transport.feed(stray), sim.transport.feed(stray)))
+                else:
+                    sim.feed(line + body[:size])
+                    sim.advance(0.25)
+                    sim.feed(stray)
+                    sim.advance(0.25)
+                    sim.feed(stray)
             sim.finish()
             after = fstree.snapshot([base])
             stream = bytes(sim.transport.written)
